@@ -260,12 +260,12 @@ Qed.
 Definition ex_v : text := [118]%N.
 Definition ex_d : text := [100]%N.
 Definition ex_opts (t : N) (name : text) (perm : option text) : vopts :=
-  mkVO t 1%N 0%N name [] perm false false [] true BReturn.
+  mkVO t 1%N 0%N name [] perm false false [] true BReturn false.
 Definition ex_prog : list stmt :=
   [SView (ex_opts 1%N [] (Some ex_v)); SView (ex_opts 2%N [110%N] None); SDefPerm ex_d true false; SPolicy true false].
 Definition ex_rq (name : text) : rq5 :=
   mkRq5 (mkReq [71; 69; 84]%N [] [] false None false [] [] false [] [] [] [] [] name)
-        (CRes 0%N) [1; 0]%N [1; 0]%N [1; 0]%N [0]%N [[0]; [0]; [0]; [0]; [0]]%N.
+        (CRes 0%N) [1; 0]%N [1; 0]%N [1; 0]%N [0]%N [[0]; [0]; [0]; [0]; [0]; [0]]%N true.
 
 Example ex_granted :
   run_request (configure 1%N 7%N 8%N [ex_prog]) [(ex_v, CRes 0%N)] (ex_rq []) =
@@ -302,11 +302,11 @@ Proof. eexists. split; vm_compute; reflexivity. Qed.
    exception view is being rendered (add_view(context=Boom, permission='v') used as exception view) *)
 Definition ex_prog2 : list stmt :=
   [SPolicy true false;
-   SView (mkVO 1%N 1%N 0%N [] [] None false false [] false (BRaise EBoom));
-   SView (mkVO 2%N 1%N 5%N [] [] (Some ex_v) true false [] false BReturn)].
+   SView (mkVO 1%N 1%N 0%N [] [] None false false [] false (BRaise EBoom) false);
+   SView (mkVO 2%N 1%N 5%N [] [] (Some ex_v) true false [] false BReturn false)].
 Definition ex_rq2 : rq5 :=
   mkRq5 (mkReq [71; 69; 84]%N [] [] false None false [] [] false [] [] [] [] [] [])
-        (CRes 0%N) [1; 0]%N [1; 0]%N [1; 0]%N [0]%N [[0]; [0]; [0]; [0]; [5; 0]]%N.
+        (CRes 0%N) [1; 0]%N [1; 0]%N [1; 0]%N [0]%N [[0]; [0]; [0]; [0]; [5; 0]; [0]]%N true.
 
 Example ex_excview_refusal :
   run_request (configure 1%N 7%N 8%N [ex_prog2]) [] ex_rq2 =
@@ -356,8 +356,11 @@ Qed.
 Definition cls_of (eo : bool) : N := if eo then exc_classifier else view_classifier.
 
 (* d was derived, under state st, from a view action of the list, as its normal (eo = false) or exception variant *)
+(* the normal variant exists only when not exception_only, the exception variant only for exception contexts *)
+Definition var_ok (eo : bool) (o : vopts) : Prop := if eo then o_isexc o = true else o_exc_only o = false.
+
 Definition derived_from (acts : list action) (st : regstate) (rt : N) (d : dview) : Prop :=
-  exists eo o b, In (AView o b) acts /\ derive1 st (cls_of eo) eo o b = Some d /\ rt = rtag (o_tag o) eo.
+  exists eo o b, In (AView o b) acts /\ derive1 st (cls_of eo) eo o b = Some d /\ rt = rtag (o_tag o) eo /\ var_ok eo o.
 
 Lemma derive1_tag st cls eo o b d : derive1 st cls eo o b = Some d -> r_tag (d_reg d) = rtag (o_tag o) eo.
 Proof. unfold derive1. destruct (make pred_names (o_kw o)); [|discriminate]. intros H; inversion H; reflexivity. Qed.
@@ -370,16 +373,17 @@ Proof. unfold derive1. destruct (make pred_names (o_kw o)); [|discriminate]. int
 
 Lemma exec_view_D' s o b rt d :
   In (rt, d) (cs_D (exec_view s o b)) ->
-  In (rt, d) (cs_D s) \/ exists eo, derive1 (cs_rs s) (cls_of eo) eo o b = Some d /\ rt = rtag (o_tag o) eo.
+  In (rt, d) (cs_D s) \/
+  exists eo, derive1 (cs_rs s) (cls_of eo) eo o b = Some d /\ rt = rtag (o_tag o) eo /\ var_ok eo o.
 Proof.
   unfold exec_view.
-  destruct (negb (o_exc_only o)), (o_isexc o);
+  destruct (o_exc_only o) eqn:Eo, (o_isexc o) eqn:Ei; simpl;
     destruct (derive1 (cs_rs s) view_classifier false o b) as [d1|] eqn:E1,
              (derive1 (cs_rs s) exc_classifier true o b) as [d2|] eqn:E2; simpl; intros H;
     repeat (destruct H as [H|H];
             [inversion H; subst; right;
-             first [exists false; split; [exact E1|apply (derive1_tag _ _ _ _ _ _ E1)]
-                   |exists true; split; [exact E2|apply (derive1_tag _ _ _ _ _ _ E2)]]|]); auto.
+             first [exists false; split; [exact E1|split; [apply (derive1_tag _ _ _ _ _ _ E1)|exact Eo]]
+                   |exists true; split; [exact E2|split; [apply (derive1_tag _ _ _ _ _ _ E2)|exact Ei]]]|]); auto.
 Qed.
 
 Lemma sorted_fold' l :
@@ -411,16 +415,16 @@ Lemma commit_table s batch rt d :
   In (rt, d) (cs_D (commit s batch)) ->
   In (rt, d) (cs_D s) \/
   exists st eo o b, In st batch /\ directive (cs_rs s) st = Some (AView o b) /\ rt = rtag (o_tag o) eo /\
-                    d_perm d = secured_permission (cs_rs (commit s batch)) eo (o_perm o) /\ d_body d = b.
+                    d_perm d = secured_permission (cs_rs (commit s batch)) eo (o_perm o) /\ d_body d = b /\
+                    var_ok eo o.
 Proof.
   intros Hin. unfold commit, batch_actions in *.
   apply sorted_fold' in Hin; [|apply isort_sorted; [exact action_leb_total|exact action_leb_trans]].
-  destruct Hin as [H|(eo & o & b & H1 & H2 & H3)]; [left; exact H|right].
+  destruct Hin as [H|(eo & o & b & H1 & H2 & H3 & H4)]; [left; exact H|right].
   apply (Permutation_in _ (isort_perm action_leb _)) in H1.
   apply in_somes5_map in H1. destruct H1 as (st & Hs & Hd).
-  exists st, eo, o, b. repeat split; try assumption.
-  - eapply derive1_perm; exact H2.
-  - eapply derive1_body; exact H2.
+  exists st, eo, o, b. split; [exact Hs|]. split; [exact Hd|]. split; [exact H3|].
+  split; [eapply derive1_perm; exact H2|]. split; [eapply derive1_body; exact H2|exact H4].
 Qed.
 
 (* the declarative reading of that value: with a policy in force, exactly the property's effective permission *)
